@@ -148,6 +148,10 @@ func newOPT(c *Cloner, udpSize uint16, doBit bool) (opt *dns.OPT) {
 		opt = &dns.OPT{}
 	} else {
 		opt = c.opt.rr.Get()
+
+		// Reset the header, since the extended RCODE, version, and flags of
+		// the previous user of the record are stored in its TTL.
+		opt.Hdr = dns.RR_Header{}
 		opt.Option = opt.Option[:0]
 	}
 
